@@ -404,6 +404,12 @@ func (p *flagParser) parsePrimitive(stopSet string) (interface{}, error) {
 	if n, err := strconv.ParseInt(content, 0, 64); err == nil {
 		return n, nil
 	}
+	if strings.HasPrefix(content, "+") {
+		// an integer above MaxInt64 with an explicit sign: ParseUint reads no sign
+		if n, err := strconv.ParseUint(content[1:], 0, 64); err == nil {
+			return n, nil
+		}
+	}
 	if n, err := strconv.ParseFloat(content, 64); err == nil {
 		return n, nil
 	}
